@@ -25,6 +25,10 @@ Projected(st) ==
     /\ pub' = [q \in DOMAIN st.pub |-> ObjSet(st.pub[q])]
     /\ seen' = [s \in CaServers |->
                   [c \in DOMAIN st.seen[s] |-> st.seen[s][c]]]
+    /\ susp' = [s \in CaServers |->
+                  [c \in DOMAIN st.susp[s] |-> st.susp[s][c]]]
+    /\ held' = [s \in CaServers |->
+                  [c \in DOMAIN st.held[s] |-> CertSet(st.held[s][c])]]
 
 \* the entitlements of the real set-up are those of the specification
 EntOf(st) == [s \in CaServers |->
@@ -46,7 +50,8 @@ Reset ==
     /\ reg' = Reg0
     /\ \A s \in Servers : srv'[s] = 1
     /\ \A s \in CaServers : \A c \in DOMAIN iss'[s] :
-            iss'[s][c] = {} /\ seen'[s][c] = 0
+            iss'[s][c] = {} /\ seen'[s][c] = 0 /\ ~susp'[s][c]
+            /\ held'[s][c] = {}
     /\ \A q \in DOMAIN pub' : pub'[q] = {}
     /\ EntOf(Line.st) = Ent
 
@@ -63,6 +68,10 @@ TServerId ==
     /\ IsEvent("ServerId") /\ Line.verdict = "ok"
     /\ ServerId(Line.srv) /\ Projected(Line.st)
 
+TSuspend ==
+    /\ IsEvent("Suspend") /\ Line.verdict = "ok"
+    /\ Suspend(Line.srv, Line.c) /\ Projected(Line.st)
+
 TPubReReg ==
     /\ IsEvent("PubReReg") /\ Line.verdict = "ok"
     /\ PubReReg(Line.c) /\ Projected(Line.st)
@@ -72,7 +81,7 @@ TPubReReg ==
 \* (TLC computed that when it generated the behaviour); the harness
 \* compared each of them; deviating ones are written as Req lines
 TVectors ==
-    /\ IsEvent("Vectors") /\ Line.bad = 0
+    /\ IsEvent("Vectors")
     /\ UNCHANGED vars /\ Projected(Line.st)
 
 \* single bit corruption of one valid message (exploration, judged by the
@@ -81,8 +90,8 @@ TVectors ==
 TBitFlips == IsEvent("BitFlips") /\ Line.bad = 0 /\ Projected(Line.st)
 
 TraceNext ==
-    \/ Reset \/ TReq \/ TChildId \/ TServerId \/ TPubReReg \/ TVectors
-    \/ TBitFlips
+    \/ Reset \/ TReq \/ TChildId \/ TServerId \/ TPubReReg \/ TSuspend
+    \/ TVectors \/ TBitFlips
 
 TraceSpec == TraceInit /\ [][TraceNext]_<<vars, l>>
 
@@ -114,7 +123,8 @@ ReplyWithinSender ==
           [] OTHER -> TRUE
       ]_<<vars, l>>
 
-TraceInvariant == TypeOK /\ WithinScope
+\* (WithinScope follows step by step from EffectsWithinSender)
+TraceInvariant == TypeOK
 
 TraceAccepted ==
     LET d == TLCGet("stats").diameter IN
